@@ -467,6 +467,15 @@ def chain_families(rng, quick):
         while sum(w + 1 for w in ws) < 130:
             ws.append(rng.choice(widths))
         out.append(("bundles", [(g_bundle(w, u), 0) for w in ws]))
+    # (f2) beyond the block sizes a blocked implementation would use (1000 / 1024 rows): 1030..1300
+    #      nodes at a small diameter - two to three dozen bundles of 24..48 routes
+    for _ in range(1 if quick else 2):
+        u = und()
+        while True:                     # (the chain operator's 32-bit budget ends at 1200 nodes)
+            ws = [rng.choice([24, 30, 40, 48]) for _ in range(rng.randint(24, 36))]
+            if 1030 <= sum(w + 1 for w in ws) + 1 <= 1190:
+                break
+        out.append(("bundles-beyond-1024-nodes", [(g_bundle(w, u), 0) for w in ws]))
     # (g) mixed chains: any small random gadgets (one-way, unreachable terminals), cliques (dense
     #     blocks), bundles, cycles; binary or with tie-rich lengths
     for i in range(3 if quick else 12):
@@ -518,7 +527,7 @@ def chain_jobs(rng, name, chain, bin_budget):
         # the matrix-power routine costs diam products of n x n matrices (and forms the number of
         # WALKS of every length <= diam, at most deg^diam)
         slow = float(n) ** 3 * diam > bin_budget or diam * math.log10(max(deg, 2)) > 290
-        if name.endswith("beyond-1e308"):
+        if name.endswith("beyond-1e308") or name.endswith("beyond-1024-nodes"):
             slow = False
         if slow:
             fns.remove("betweenness_bin")
